@@ -79,7 +79,7 @@ func (e *Engine) rootsFor(prop string) []string {
 		if fc.Assume || fc.Inline {
 			continue
 		}
-		if prop == "C20" {
+		if prop == "C20" || prop == "NONE" {
 			out = append(out, k)
 			continue
 		}
